@@ -19,6 +19,9 @@ Definition is_int (v : ival) : bool := match v with VInt _ => true | _ => false 
 Definition str_last_is_bang (v : ival) : bool := match v with VStr _ b => b | _ => false end.
 (* v[-1] == "!"  (v is a str on every path that evaluates this) *)
 Definition last_is_bang (v : ival) : bool := match v with VStr _ b => b | _ => false end.
+(* str(v): on the paths that evaluate it v is an int or already a str *)
+Definition py_str (v : ival) : ival :=
+  match v with VInt z => VStr z false | VStr z b => VStr z b | _ => VErr end.
 (* int(v) *)
 Definition py_int (v : ival) : ival :=
   match v with VInt z => VInt z | VStr z false => VInt z | _ => VErr end.
